@@ -194,12 +194,12 @@ theorem present_some {c : Cuckoo} {i1 i2 fp i : Nat} (h : c.present i1 i2 fp = s
     · simp at h
 
 /-- what `check` tests -/
-def contains (G : Nat → Nat) (c : Cuckoo) (fp : Nat) : Prop :=
+def containsL (G : Nat → Nat) (c : Cuckoo) (fp : Nat) : Prop :=
   c.hasFp (fp % c.cap) fp = true ∨ c.hasFp (G fp % c.cap) fp = true
 
-theorem contains_iff_stored {G : Nat → Nat} {c : Cuckoo} (hs : TS G c) (fp : Nat) :
-    contains G c fp ↔ ∃ bin, stored c bin ∧ bin.1 = fp := by
-  unfold contains
+theorem containsL_iff_stored {G : Nat → Nat} {c : Cuckoo} (hs : TS G c) (fp : Nat) :
+    containsL G c fp ↔ ∃ bin, stored c bin ∧ bin.1 = fp := by
+  unfold containsL
   rw [hasFp_iff, hasFp_iff]
   constructor
   · rintro (⟨bin, hm, e⟩ | ⟨bin, hm, e⟩) <;> exact ⟨bin, stored_of_bucket hm, e⟩
@@ -209,9 +209,9 @@ theorem contains_iff_stored {G : Nat → Nat} {c : Cuckoo} (hs : TS G c) (fp : N
     · left; exact ⟨bin, by rw [← e, ← h]; exact hi, e⟩
     · right; exact ⟨bin, by rw [← e, ← h]; exact hi, e⟩
 
-theorem contains_iff_isFp {G : Nat → Nat} {c : Cuckoo} (hs : TS G c) (fp : Nat) :
-    contains G c fp ↔ 0 < tsum (isFp fp) c := by
-  rw [contains_iff_stored hs, tsum_pos_iff]
+theorem containsL_iff_isFp {G : Nat → Nat} {c : Cuckoo} (hs : TS G c) (fp : Nat) :
+    containsL G c fp ↔ 0 < tsum (isFp fp) c := by
+  rw [containsL_iff_stored hs, tsum_pos_iff]
   constructor
   · rintro ⟨bin, hm, e⟩; exact ⟨bin, hm, by simp [isFp, e]⟩
   · rintro ⟨bin, hm, h⟩
@@ -220,9 +220,9 @@ theorem contains_iff_isFp {G : Nat → Nat} {c : Cuckoo} (hs : TS G c) (fp : Nat
     · exact e
     · simp [isFp, e] at h
 
-theorem contains_iff_cnt {G : Nat → Nat} {c : Cuckoo} (hw : WF G c) (fp : Nat) :
-    contains G c fp ↔ 0 < tsum (cntW fp) c := by
-  rw [contains_iff_stored hw.ts, tsum_pos_iff]
+theorem containsL_iff_cnt {G : Nat → Nat} {c : Cuckoo} (hw : WF G c) (fp : Nat) :
+    containsL G c fp ↔ 0 < tsum (cntW fp) c := by
+  rw [containsL_iff_stored hw.ts, tsum_pos_iff]
   constructor
   · rintro ⟨bin, hm, e⟩; exact ⟨bin, hm, by have := hw.cnt_pos bin hm; simp only [cntW, e, if_true]; omega⟩
   · rintro ⟨bin, hm, h⟩
@@ -232,13 +232,13 @@ theorem contains_iff_cnt {G : Nat → Nat} {c : Cuckoo} (hw : WF G c) (fp : Nat)
     · simp [cntW, e] at h
 
 /-- a weight that vanishes off an absent fingerprint sums to zero -/
-theorem tsum_zero_of_absent {G : Nat → Nat} {c : Cuckoo} (hs : TS G c) (fp : Nat) (habs : ¬ contains G c fp)
+theorem tsum_zero_of_absent {G : Nat → Nat} {c : Cuckoo} (hs : TS G c) (fp : Nat) (habs : ¬ containsL G c fp)
     (f : CBin → Nat) (hf : ∀ b, b.1 ≠ fp → f b = 0) : tsum f c = 0 := by
   by_cases h : 0 < tsum f c
   · exfalso
     obtain ⟨bin, hm, hp⟩ := (tsum_pos_iff f c).mp h
     apply habs
-    rw [contains_iff_stored hs]
+    rw [containsL_iff_stored hs]
     refine ⟨bin, hm, ?_⟩
     by_cases e : bin.1 = fp
     · exact e
@@ -254,7 +254,7 @@ theorem check_eq_cnt {G : Nat → Nat} {c : Cuckoo} (hw : WF G c) (h : Nat) :
     obtain ⟨h1, h2⟩ := present_none hp
     symm
     apply tsum_zero_of_absent hw.ts fp
-    · unfold contains; simp [h1, h2]
+    · unfold containsL; simp [h1, h2]
     · intro b hb; simp [cntW, hb]
   · rename_i i hp
     obtain ⟨_, hh⟩ := present_some hp
@@ -370,10 +370,10 @@ def AddPost (G : Nat → Nat) (c : Cuckoo) (fp : Nat) (c' : Cuckoo) (err : Optio
   (err = none ∧ WF G c' ∧ SameX c c' ∧ (c'.cap = c.cap ∨ (c.auto = true ∧ c'.cap = c.cap * c.rate)) ∧
     (∀ f : CBin → Nat, (∀ b, b.1 = fp → f b = 0) → tsum f c' = tsum f c) ∧
     tsum (cntW fp) c' = (if c.counting then tsum (cntW fp) c + 1 else 1) ∧
-    (¬ contains G c fp → ∀ f : CBin → Nat, tsum f c' = tsum f c + f (fp, 1))) ∨
+    (¬ containsL G c fp → ∀ f : CBin → Nat, tsum f c' = tsum f c + f (fp, 1))) ∨
   (err = some .cuckooFull ∧ c' = c)
 
-theorem addPost_of_cons {G : Nat → Nat} {c c' : Cuckoo} {fp : Nat} (hw : WF G c) (habs : ¬ contains G c fp)
+theorem addPost_of_cons {G : Nat → Nat} {c c' : Cuckoo} {fp : Nat} (hw : WF G c) (habs : ¬ containsL G c fp)
     (hs' : TS G c') (hx : SameX c c') (hcap : c'.cap = c.cap ∨ (c.auto = true ∧ c'.cap = c.cap * c.rate))
     (hc : ∀ f : CBin → Nat, tsum f c' = tsum f c + f (fp, 1)) : AddPost G c fp c' none := by
   have h0 : ∀ f : CBin → Nat, (∀ b, b.1 ≠ fp → f b = 0) → tsum f c = 0 :=
@@ -398,7 +398,7 @@ theorem add_spec {G : Nat → Nat} {c : Cuckoo} (h : Nat) (o : List Nat) (hw : W
     obtain ⟨hi12, hh⟩ := present_some hp
     have hi : i < c.cap := by
       rcases hi12 with rfl | rfl <;> exact Nat.mod_lt _ hw.ts.cap_pos
-    have hcon : contains G c fp := by
+    have hcon : containsL G c fp := by
       rcases hi12 with rfl | rfl
       · exact Or.inl hh
       · exact Or.inr hh
@@ -454,7 +454,7 @@ theorem add_spec {G : Nat → Nat} {c : Cuckoo} (h : Nat) (o : List Nat) (hw : W
   · -- the fingerprint is new
     rename_i hp
     obtain ⟨hn1, hn2⟩ := present_none hp
-    have habs : ¬ contains G c fp := by unfold contains; simp [hn1, hn2]
+    have habs : ¬ containsL G c fp := by unfold containsL; simp [hn1, hn2]
     have hspec := insertFp_spec (G := G) (fp, 1) o hw.ts
     simp only at hspec
     generalize insertFp G c (fp, 1) (fp % c.cap) (G fp % c.cap) o = r at hspec
@@ -479,11 +479,11 @@ theorem add_spec {G : Nat → Nat} {c : Cuckoo} (h : Nat) (o : List Nat) (hw : W
 
 /-- post-condition of `remove` of a key with fingerprint `fp` -/
 def RemovePost (G : Nat → Nat) (c : Cuckoo) (fp : Nat) (c' : Cuckoo) (ret : Bool) : Prop :=
-  (ret = true ∧ WF G c' ∧ Same c c' ∧ contains G c fp ∧
+  (ret = true ∧ WF G c' ∧ Same c c' ∧ containsL G c fp ∧
     (∀ f : CBin → Nat, (∀ b, b.1 = fp → f b = 0) → tsum f c' = tsum f c) ∧
     tsum (cntW fp) c' + 1 = tsum (cntW fp) c ∧
     (c.counting = false → ∀ f : CBin → Nat, tsum f c' + f (fp, 1) = tsum f c)) ∨
-  (ret = false ∧ c' = c ∧ ¬ contains G c fp)
+  (ret = false ∧ c' = c ∧ ¬ containsL G c fp)
 
 theorem remove_spec {G : Nat → Nat} {c : Cuckoo} (h : Nat) (hw : WF G c) :
     RemovePost G c (c.fingerprint h) (remove G c h).1 (remove G c h).2 := by
@@ -492,12 +492,12 @@ theorem remove_spec {G : Nat → Nat} {c : Cuckoo} (h : Nat) (hw : WF G c) :
   split
   · rename_i hp
     obtain ⟨hn1, hn2⟩ := present_none hp
-    exact Or.inr ⟨rfl, rfl, by unfold contains; simp [hn1, hn2]⟩
+    exact Or.inr ⟨rfl, rfl, by unfold containsL; simp [hn1, hn2]⟩
   · rename_i i hp
     obtain ⟨hi12, hh⟩ := present_some hp
     have hi : i < c.cap := by
       rcases hi12 with rfl | rfl <;> exact Nat.mod_lt _ hw.ts.cap_pos
-    have hcon : contains G c fp := by
+    have hcon : containsL G c fp := by
       rcases hi12 with rfl | rfl
       · exact Or.inl hh
       · exact Or.inr hh
